@@ -9,8 +9,8 @@ PLAN = {
               "rejected it) and the drawn authority is not the governance address; distinct = distinct (type, chain, authority shape, payload mode)"),
         assumptions=["baseapp discards a failed message's writes (reproduced by the harness: cache context written only on success)",
                      "a case-variant of the governance bech32 string counts as the governance authority (x/evm compares case-insensitively)"],
-        quick=[dict(test="TestC16", cases=2400, shards=8, timeout=600)],
-        thorough=[dict(test="TestC16", cases=96000, shards=16, timeout=3000, shrink=120)],
+        quick=[dict(test="TestC16", cases=24000, shards=16, timeout=600)],
+        thorough=[dict(test="TestC16", cases=480000, shards=16, timeout=3000, shrink=120)],
     ),
     "C03": dict(
         level="exploration",
@@ -19,8 +19,8 @@ PLAN = {
               "of the parked/registered types additionally a 3-oracle tally on the real keeper (votes A,B,B: nothing observed before two oracles agree, "
               "applied claim == B field for field); every generated pair is non-trivial; distinct = distinct (type, mutation kind+field, stateful)"),
         assumptions=["chain_name and the voter's own bridger_address are not execution-relevant (they are per-voter)"],
-        quick=[dict(test="TestC03", cases=12000, shards=8, timeout=600)],
-        thorough=[dict(test="TestC03", cases=1200000, shards=16, timeout=3000, shrink=120)],
+        quick=[dict(test="TestC03", cases=120000, shards=16, timeout=600)],
+        thorough=[dict(test="TestC03", cases=2400000, shards=16, timeout=3000, shrink=120)],
     ),
     "C20": dict(
         level="exploration",
@@ -31,8 +31,8 @@ PLAN = {
               "Oracle: no panic (a panic recovered by baseapp/ante as ErrPanic counts as a panic). non-trivial = the input was decoded into typed messages / reached a "
               "method selector / parser; distinct = distinct (kind, type or method, outcome class). (B) see fee_rule keys."),
         assumptions=["Must*-style helpers that panic by contract are only reached with validated input (they are not called directly)"],
-        quick=[dict(test="TestC20A", cases=24000, shards=8, timeout=600), dict(test="TestC20B", cases=4000, shards=8, timeout=600)],
-        thorough=[dict(test="TestC20A", cases=960000, shards=12, timeout=3000, shrink=120), dict(test="TestC20B", cases=120000, shards=4, timeout=3000, shrink=120)],
+        quick=[dict(test="TestC20A", cases=120000, shards=16, timeout=600), dict(test="TestC20B", cases=16000, shards=16, timeout=600)],
+        thorough=[dict(test="TestC20A", cases=2400000, shards=16, timeout=3000, shrink=120), dict(test="TestC20B", cases=240000, shards=16, timeout=3000, shrink=120)],
     ),
     "C01": dict(
         level="exploration",
@@ -41,8 +41,8 @@ PLAN = {
               "unbond, a remove->withdraw->re-approve->re-bond cycle, end-blocks (slashing with a small signed window) and oracle-set confirmations. Invariants after every step over the raw stores and a model of the "
               "per-oracle cursor. TestC01Reenter: parked inbound bridge calls whose target contract re-enters crosschain.executeClaim (for itself directly / twice / through a second contract, or for another parked claim; caught or propagated; returning or reverting): each claim credits at most its amount. non-trivial = >= 2 variants of one nonce received votes and some nonce was observed, or stake/membership changed while an attestation was open; distinct = distinct (oracle count, plan, op-kind/argument-class sequence)"),
         assumptions=["claims enter through the MsgClaim handler with the unpacked claim (on this snapshot MsgClaim fails ValidateBasic after wire decoding, see DESIGN.md)", "pruning beyond 100 nonces is not reached in the quick tier"],
-        quick=[dict(test="TestC01", cases=8000, shards=16, timeout=900), dict(test="TestC01Reenter", cases=400, shards=4, timeout=900)],
-        thorough=[dict(test="TestC01", cases=400000, shards=14, timeout=3400, shrink=120), dict(test="TestC01Reenter", cases=8000, shards=2, timeout=3400)],
+        quick=[dict(test="TestC01", cases=24000, shards=16, timeout=900), dict(test="TestC01Reenter", cases=400, shards=16, timeout=900)],
+        thorough=[dict(test="TestC01", cases=480000, shards=16, timeout=3400, shrink=120), dict(test="TestC01Reenter", cases=8000, shards=2, timeout=3400)],
     ),
     "C02": dict(
         level="exploration",
@@ -50,8 +50,8 @@ PLAN = {
               "recomputes, from the pre-step store, the power of the DISTINCT registered oracles whose votes for exactly that content were accepted and requires 100*S >= 66*recorded total; recorded total >= power of online oracles after every step; "
               "accepted vote => online registered oracle. non-trivial = an event observed with >= 2 voters of unequal stake, or a stake/membership change while an attestation was open"),
         assumptions=["claims enter through the MsgClaim handler with the unpacked claim; the block-level signer clause is checked by TestC02Signer"],
-        quick=[dict(test="TestC02", cases=8000, shards=16, timeout=900), dict(test="TestC02Signer", cases=96, shards=8, timeout=900)],
-        thorough=[dict(test="TestC02", cases=400000, shards=14, timeout=3400, shrink=120), dict(test="TestC02Signer", cases=2000, shards=2, timeout=3400)],
+        quick=[dict(test="TestC02", cases=24000, shards=16, timeout=900), dict(test="TestC02Signer", cases=96, shards=16, timeout=900)],
+        thorough=[dict(test="TestC02", cases=480000, shards=16, timeout=3400, shrink=120), dict(test="TestC02Signer", cases=2000, shards=2, timeout=3400)],
     ),
     "C12": dict(
         level="exploration",
@@ -60,29 +60,29 @@ PLAN = {
               "non-trivial = object with a dynamic element. (B) on the real keeper: two stored objects per kind, confirmations built from {own, other oracle's, stranger} key x {right, other object's, other gravity id's, other chain prefix's} digest x bridger x external-address field x signature surgery "
               "(malleated s, v+27, v=2, 64/66 bytes, empty, bit flip) x missing object x repetition; accepted <=> reference verification; stored confirmations per (object, oracle) <= 1. non-trivial = any not-all-right combination"),
         assumptions=["the contract side is a transcription of FxBridgeLogic.sol's abi.encode argument lists (no Solidity compiler in the sandbox)", "keccak and secp256k1 recovery from go-ethereum are trusted"],
-        quick=[dict(test="TestC12A", cases=9000, shards=6, timeout=600), dict(test="TestC12B", cases=1500, shards=10, timeout=600)],
-        thorough=[dict(test="TestC12A", cases=600000, shards=8, timeout=3000, shrink=120), dict(test="TestC12B", cases=60000, shards=8, timeout=3000, shrink=120)],
+        quick=[dict(test="TestC12A", cases=90000, shards=16, timeout=600), dict(test="TestC12B", cases=15000, shards=16, timeout=600)],
+        thorough=[dict(test="TestC12A", cases=1800000, shards=16, timeout=3000, shrink=120), dict(test="TestC12B", cases=300000, shards=16, timeout=3000, shrink=120)],
     ),
     "C04": dict(
         level="exploration",
         rule='histories (pure data, <= 45 ops quick / 120 thorough) by 3 users over FX, a module-owned multi-chain pair and an externally-owned pair on 3 chains (eth, bsc, tron) with generated timeout / block-time parameters: send, cancel, increase-fee and bridge-call through Cosmos messages and through the precompile (crossChain, cancelSendToExternal, increaseBridgeFee, bridgeCall), request-batch with generated base/minimum fee, deposits (bech32 / erc20 target) and inbound bridge calls as oracle claims with deferred executeClaim, batch-executed events in and out of order, bridge-call results (success / failure), height-only events with jumps to timeout-1 / timeout / timeout+1 of open objects, fxcore height jumps, and a governance raw-store reset of the observed height. The harness plays the external contract (height < timeout, batch nonce increasing per token) and only emits admissible events. ' + "Oracle: ledger per token group after every step: held by tracked accounts (all representations) + pool/batches/outgoing calls + observed-but-unexecuted inbound claims = initial + observed deposits - withdrawals observed as executed; every tracked account's holdings change by exactly what the operation states; for the module-owned multi-chain token what is queued towards plus executed on one external chain never exceeds what came in through it; and a final probe on a branch of the end state (genesis FX escrow paid out beforehand, so the escrow holds only what the history put there): every queued transfer is cancelled by its owner with amount+fee refunded, every holder sends all they hold (bounded per chain by what that chain's contract holds for the multi-chain token) and everything that left a home-chain token's chain comes back as one deposit - none may be refused. Generator: most operations focus on one (chain, token), composites send..batch and far-batch/reset/near-batch/boundary-jump, large sends of a quarter to all of a balance. non-trivial = history with a deposit, a withdrawal door and a refund/cancel/timeout over >= 2 token kinds",
         assumptions=["IBC vouchers are left to C19", "tokens originating on fxcore are only deposited back up to the amount currently out on that chain (the external contract cannot release more)"],
-        quick=[dict(test="TestC04", cases=1200, shards=12, timeout=900)],
+        quick=[dict(test="TestC04", cases=1200, shards=16, timeout=900)],
         thorough=[dict(test="TestC04", cases=40000, shards=16, timeout=3400, shrink=120)],
     ),
     "C05": dict(
         level="exploration",
         rule='histories (pure data, <= 45 ops quick / 120 thorough) by 3 users over FX, a module-owned multi-chain pair and an externally-owned pair on 3 chains (eth, bsc, tron) with generated timeout / block-time parameters: send, cancel, increase-fee and bridge-call through Cosmos messages and through the precompile (crossChain, cancelSendToExternal, increaseBridgeFee, bridgeCall), request-batch with generated base/minimum fee, deposits (bech32 / erc20 target) and inbound bridge calls as oracle claims with deferred executeClaim, batch-executed events in and out of order, bridge-call results (success / failure), height-only events with jumps to timeout-1 / timeout / timeout+1 of open objects, fxcore height jumps, and a governance raw-store reset of the observed height. The harness plays the external contract (height < timeout, batch nonce increasing per token) and only emits admissible events. ' + "Oracle: reference model of pool / batches / calls compared with the decoded stores after every step (each id in exactly one place, fields byte-equal to what the creator supplied, ids strictly increasing), settlement amounts per account, cancel only by the creator, batch cancel returns transfers unchanged, a call whose execution was observed is never refunded. non-trivial = history with a batch and (cancel after batching, out-of-order execution, fee increase or batch timeout)",
         assumptions=["releases are observed (not predicted) and then validated, so a different but property-conforming release order would not alarm"],
-        quick=[dict(test="TestC05", cases=1200, shards=12, timeout=900)],
+        quick=[dict(test="TestC05", cases=1200, shards=16, timeout=900)],
         thorough=[dict(test="TestC05", cases=40000, shards=16, timeout=3400, shrink=120)],
     ),
     "C06": dict(
         level="exploration",
         rule='histories (pure data, <= 45 ops quick / 120 thorough) by 3 users over FX, a module-owned multi-chain pair and an externally-owned pair on 3 chains (eth, bsc, tron) with generated timeout / block-time parameters: send, cancel, increase-fee and bridge-call through Cosmos messages and through the precompile (crossChain, cancelSendToExternal, increaseBridgeFee, bridgeCall), request-batch with generated base/minimum fee, deposits (bech32 / erc20 target) and inbound bridge calls as oracle claims with deferred executeClaim, batch-executed events in and out of order, bridge-call results (success / failure), height-only events with jumps to timeout-1 / timeout / timeout+1 of open objects, fxcore height jumps, and a governance raw-store reset of the observed height. The harness plays the external contract (height < timeout, batch nonce increasing per token) and only emits admissible events. ' + "Oracle: a batch / call may disappear for timeout only in a step that observed an event and only if the last observed external height >= its timeout; nothing can be batched / called out while no external height is observed; an admissible execution event is never rejected; an object whose execution the external chain reported is never refunded. Generator as for C04, including the composite that builds an older batch with a later timeout than a newer batch of the same token and then jumps the observed height around the nearer timeout. non-trivial = a timeout release and an execution (or a boundary-height jump, or an older batch with a later timeout) in one history",
         assumptions=["the external contract is modelled by its three relevant require()s"],
-        quick=[dict(test="TestC06", cases=1200, shards=12, timeout=900)],
-        thorough=[dict(test="TestC06", cases=40000, shards=16, timeout=3400, shrink=120)],
+        quick=[dict(test="TestC06", cases=2400, shards=16, timeout=900)],
+        thorough=[dict(test="TestC06", cases=48000, shards=16, timeout=3400, shrink=120)],
     ),
     "C11": dict(
         level="exploration",
@@ -91,8 +91,8 @@ PLAN = {
               "validator tokens/shares untouched, allowance reduced exactly, pending rewards of both parties paid; after every step delegations sum to validator shares and every registered crisis invariant (staking, distribution, bank, gov) holds; at the end every delegator withdraws and fully undelegates. "
               "non-trivial = a transfer after rewards accrued, or to oneself, or after a slash"),
         assumptions=["withdraw addresses are the delegators' own addresses", "the SDK's max-unbonding-entries limit is respected in the final undelegation"],
-        quick=[dict(test="TestC11", cases=640, shards=16, timeout=900)],
-        thorough=[dict(test="TestC11", cases=24000, shards=16, timeout=3400, shrink=120)],
+        quick=[dict(test="TestC11", cases=6400, shards=16, timeout=900)],
+        thorough=[dict(test="TestC11", cases=96000, shards=16, timeout=3400, shrink=120)],
     ),
     "C07": dict(
         level="exploration",
@@ -101,8 +101,8 @@ PLAN = {
               "sufficient or insufficient deposit), votes, direct oracle-list updates, add-delegate, unbond, delegations, absent validators - interleaved with real FinalizeBlock+Commit of all begin/end blockers with time steps 5 s / 1 h / 15 d / 22 d. Oracle: no error, no panic. "
               "non-trivial = a block was processed while an online oracle had left an oracle set / batch / outgoing bridge call older than the signed window unconfirmed, or a proposal ended"),
         assumptions=["oracle claims are injected through the MsgClaim handler with unpacked claims (wire delivery of MsgClaim is impossible on this snapshot)", "governance raw store updates are restricted to value-preserving or failing ones (writing garbage into a module store is outside 'valid')"],
-        quick=[dict(test="TestC07", cases=960, shards=16, timeout=900)],
-        thorough=[dict(test="TestC07", cases=9600, shards=16, timeout=3400, shrink=120)],
+        quick=[dict(test="TestC07", cases=1920, shards=16, timeout=900)],
+        thorough=[dict(test="TestC07", cases=19200, shards=16, timeout=3400, shrink=120)],
     ),
     "C10": dict(
         level="exploration",
@@ -112,8 +112,8 @@ PLAN = {
               "except from in transferFromShares by exactly shares <= allowance with allowance reduced exactly; non-CALL kinds and disabled targets fail and leave the state equal to that of a no-op transaction by the same sender. "
               "non-trivial = the call names a victim, uses a non-CALL kind, runs under a switch list, or is made by a contract a victim called"),
         assumptions=["the governance switch entry format is the one the code documents: 0xaddr or 0xaddr/methodIdHex (no 0x on the method id), any letter case"],
-        quick=[dict(test="TestC10", cases=1600, shards=16, timeout=900)],
-        thorough=[dict(test="TestC10", cases=48000, shards=16, timeout=3400, shrink=120)],
+        quick=[dict(test="TestC10", cases=16000, shards=16, timeout=900)],
+        thorough=[dict(test="TestC10", cases=320000, shards=16, timeout=3400, shrink=120)],
     ),
     "C09": dict(
         level="fault_enumeration",
@@ -132,8 +132,8 @@ PLAN = {
               "Invariants after every step / transaction: module-owned pair escrow == ERC-20 total supply (FX: coins held by the wrapper contract), externally-owned pair: ERC-20 escrowed by the module == coin supply over base + bridge denominations, balances over the closed holder set == total supply, "
               "pair / by-denom / by-erc20 / alias indexes and bank metadata describe one set of pairs; a conversion moves exactly the amount from sender to receiver and nothing else. non-trivial: (A) conversions over >= 2 pair kinds; (B) the program writes the token before a precompile call converts it in the same successful transaction"),
         assumptions=["the ERC-20 holder set is closed by construction (the generator only targets known addresses)"],
-        quick=[dict(test="TestC08A", cases=800, shards=8, timeout=900), dict(test="TestC08B", cases=1600, shards=8, timeout=900)],
-        thorough=[dict(test="TestC08A", cases=24000, shards=8, timeout=3400, shrink=120), dict(test="TestC08B", cases=48000, shards=8, timeout=3400, shrink=120)],
+        quick=[dict(test="TestC08A", cases=800, shards=16, timeout=900), dict(test="TestC08B", cases=1600, shards=16, timeout=900)],
+        thorough=[dict(test="TestC08A", cases=24000, shards=16, timeout=3400, shrink=120), dict(test="TestC08B", cases=48000, shards=16, timeout=3400, shrink=120)],
     ),
     "C13": dict(
         level="exploration",
@@ -143,8 +143,8 @@ PLAN = {
               "an oracle goes offline at an end block only if an oracle set created at or after the height at which it last joined (bond, or back online by paying its penalty - tracked by the model, not read from the record) stayed unconfirmed by it for the signed window; after removal and maturity the withdrawal succeeds once, pays delegate-account balance minus penalty and deletes the three records; before maturity it must not delete them. "
               "Generator composites: full life cycle (removal, early withdrawal, maturity, two withdrawals), late joiner with colliding addresses, and miss-window / pay penalty / confirm only newer sets / older windows pass. non-trivial = a stake withdrawn after maturity, a slash decision, or a removal followed by the unbonding period"),
         assumptions=["edit-bridger is exercised at handler level only (its ValidateBasic demands a validator-operator prefix on this snapshot)"],
-        quick=[dict(test="TestC13", cases=960, shards=16, timeout=900)],
-        thorough=[dict(test="TestC13", cases=32000, shards=16, timeout=3400, shrink=120)],
+        quick=[dict(test="TestC13", cases=9600, shards=16, timeout=900)],
+        thorough=[dict(test="TestC13", cases=192000, shards=16, timeout=3400, shrink=120)],
     ),
     "C14": dict(
         level="exploration",
@@ -153,8 +153,8 @@ PLAN = {
               "0..4 later time steps (1 h .. 600 h, real staking end blocker) and a second migration (same source, or another source onto the same target). Oracle: acceptance <=> all stated conditions; on acceptance target-after == source-before (+) target-before (balances, shares, unbonding and redelegation entries, pending rewards), source empty incl. the maturation queues, totals unchanged, crisis invariants, matured funds paid to the target, target can undelegate, second migration refused. "
               "non-trivial = portfolio with an unbonding or redelegation entry, or governance involvement"),
         assumptions=["an account's public key is set directly on the account (as after its first transaction)"],
-        quick=[dict(test="TestC14", cases=960, shards=16, timeout=900)],
-        thorough=[dict(test="TestC14", cases=32000, shards=16, timeout=3400, shrink=120)],
+        quick=[dict(test="TestC14", cases=9600, shards=16, timeout=900)],
+        thorough=[dict(test="TestC14", cases=192000, shards=16, timeout=3400, shrink=120)],
     ),
     "C15": dict(
         level="exploration",
@@ -165,8 +165,8 @@ PLAN = {
               "at the deadline the outcome equals the model's outcome with the quorum of its type at tally time (comparisons closer than 1e-15 to a threshold are skipped and counted); every depositor's balance grows by exactly the refunds of that step and the supply falls by exactly the burned deposits; cancellation refunds deposit minus the charge; mixed-type proposals are refused; "
               "a passed proposal's messages apply all (recipients paid, token toggled) or none (recipients empty, toggle unchanged, no store other than gov / bank changed). non-trivial = a proposal ended and (>= 2 proposals of different types in the history, or per-type parameters changed while a proposal of that type was open)"),
         assumptions=["expedited proposals are not generated (the property does not say which of the per-type and the expedited periods wins)", "per-type parameters are changed by MsgUpdateCustomParams with the governance authority directly, not through a passed proposal"],
-        quick=[dict(test="TestC15", cases=4800, shards=16, timeout=900)],
-        thorough=[dict(test="TestC15", cases=160000, shards=16, timeout=3400, shrink=120)],
+        quick=[dict(test="TestC15", cases=24000, shards=16, timeout=900)],
+        thorough=[dict(test="TestC15", cases=480000, shards=16, timeout=3400, shrink=120)],
     ),
     "C17": dict(
         level="exploration",
@@ -187,8 +187,8 @@ PLAN = {
               "proposal: n = 1..4 same-type messages (community-pool spends / oracle-list updates / erc20 toggles) whose i-th fails with an error or a panic, voted through by all validators and tallied by the real gov end blocker: the full store dump equals, outside the governance store, the dump reached from the same pre-state by a proposal consisting of the failing message alone. "
               "non-trivial = the failure happens after at least one write of the failed sub-step (storage write, earlier token converted, script step, earlier message)"),
         assumptions=["the IBC boundary is covered by C19's machinery"],
-        quick=[dict(test="TestC18", cases=1600, shards=16, timeout=900)],
-        thorough=[dict(test="TestC18", cases=48000, shards=16, timeout=3400, shrink=120)],
+        quick=[dict(test="TestC18", cases=16000, shards=16, timeout=900)],
+        thorough=[dict(test="TestC18", cases=320000, shards=16, timeout=3400, shrink=120)],
     ),
     "C19": dict(
         level="exploration",
@@ -198,7 +198,7 @@ PLAN = {
               "Oracle: success acknowledgement => exactly the amount to the receiver (ERC-20 for vouchers, coin for FX), every other tracked holding (users, contracts, all derived memo senders; coin and ERC-20 form separately) unchanged, supply of the token's denominations + amount (unchanged for returning FX); error acknowledgement => no store outside the IBC core's changes; memo call runs as hash(source port/channel, sender), never as a local account; "
               "a send debits exactly the amount in the form sent, a refused send changes nothing and leaves no tracking record; error acknowledgement / timeout refunds exactly the amount in the form sent, once (replays change nothing), a success acknowledgement refunds nothing; no tracking record remains after any resolution; each channel's escrow holds exactly sends - refunds - returns. non-trivial = transfers resolved out of sending order, or an inbound packet with a memo call"),
         assumptions=["light-client proofs are not exercised: delivery follows ibc-go v8.5.1's message server rules as emulated in harness/sim/ibc.go", "on this snapshot every ERC-20-started IBC transfer is refused by the precompile (counted in the evidence labels), so refunds in ERC-20 form are reachable only if that changes"],
-        quick=[dict(test="TestC19", cases=1600, shards=16, timeout=900)],
-        thorough=[dict(test="TestC19", cases=48000, shards=16, timeout=3400, shrink=120)],
+        quick=[dict(test="TestC19", cases=3200, shards=16, timeout=900)],
+        thorough=[dict(test="TestC19", cases=64000, shards=16, timeout=3400, shrink=120)],
     ),
 }
